@@ -65,6 +65,11 @@ def generate():
         vlib.write_if_changed(os.path.join(vlib.COQ, 'Generated', 'C01_ops_gen.v'), c01_ops.translate(vlib.REPO))
     except c01_ops.Untranslatable as e:
         raise c01_pipeline.Untranslatable(str(e))
+    from translate import c01_ctl
+    try:
+        vlib.write_if_changed(os.path.join(vlib.COQ, 'Generated', 'C01_ctl_gen.v'), c01_ctl.translate(vlib.REPO))
+    except c01_ctl.Untranslatable as e:
+        raise c01_pipeline.Untranslatable(str(e))
 
 
 def option_sets():
@@ -421,6 +426,95 @@ def expression_tie(run, rnd, quick, batch=0):
     return None, []
 
 
+def control_ops_tie(run, rnd, quick, batch=0):
+    """coq/Ops: the semantics of the operator terms generated from malt/operators/control_flow.py against the real
+    if_stmt / while_stmt / for_stmt called with logging callbacks driven by decision lists"""
+    from malt.operators import control_flow as cf
+
+    class Boom(Exception):
+        pass
+
+    def real(kind, cond, ext, ds):
+        d, log = list(ds), []
+
+        def pop():
+            return d.pop(0) if d else 0
+
+        def test():
+            log.append((1, 0))
+            x = pop()
+            if x == 2:
+                raise Boom()
+            return x          # an int: the operator must take its truth value
+
+        def body(*a):
+            log.append((2, a[0] if a else 0))
+            if pop() == 3:
+                raise Boom()
+
+        def orelse():
+            log.append((3, 0))
+            if pop() == 3:
+                raise Boom()
+
+        class It(object):
+            def __iter__(self):
+                return self
+
+            def __next__(self):
+                log.append((4, 0))
+                x = pop()
+                if x == 0:
+                    raise StopIteration
+                if x == 2:
+                    raise Boom()
+                return x
+
+        def get_state():
+            log.append((9, 0))
+            return ()
+
+        def set_state(_):
+            log.append((9, 1))
+        raised = False
+        try:
+            if kind == 0:
+                cf.if_stmt(cond, body, orelse, get_state, set_state, (), 0)
+            elif kind == 1:
+                cf.while_stmt(test, body, get_state, set_state, (), {})
+            else:
+                cf.for_stmt(It(), test if ext else None, body, get_state, set_state, (), {})
+        except Boom:
+            raised = True
+        return raised, log, d
+    cases, meta = [], []
+    for j in range(160):
+        kind = rnd.choice([0, 1, 1, 2, 2, 2])
+        cond, ext = rnd.random() < 0.5, rnd.random() < 0.6
+        ds = [rnd.choice([0, 1, 1, 1, 2, 3, 4, 5]) for _ in range(rnd.randint(0, 9))]
+        raised, log, left = real(kind, cond, ext, ds)
+        cases.append('(%d, %d, %s, %s, [%s], %s, [%s], [%s])' % (
+            j, kind, vlib.coq_bool(cond), vlib.coq_bool(ext), '; '.join(map(str, ds)), vlib.coq_bool(raised),
+            '; '.join('(%d, %d)' % e for e in log), '; '.join(map(str, left))))
+        meta.append((kind, cond, ext, ds, raised, log))
+    run.count(len(cases))
+    run.extra['control_operator_runs_against_real_operators'] = run.extra.get('control_operator_runs_against_real_operators', 0) + len(cases)
+    body = ['From Coq Require Import List Arith Bool.', 'Import ListNotations.',
+            'Require Import MV.Ops.CtlOps MV.Ops.CtlCheck MV.Generated.C01_ctl_gen.',
+            'Definition cases : list ccase := [', ';\n'.join(cases), '].',
+            'Eval vm_compute in failing_ccases ctl_ops_gen cases.']
+    rc, out = vlib.coq_eval('C01', 'ctlops_%d' % batch, '\n'.join(body), timeout=600)
+    bad = vlib.parse_coq_list_of_nat(out) if rc == 0 else None
+    if bad is None:
+        return 'control operators tie: model evaluation failed\n' + out[-1500:], []
+    if bad:
+        k, cond, ext, ds, raised, log = meta[bad[0]]
+        return ('control operators tie: the semantics of the generated operator terms (coq/Ops/CtlOps.v) differs from the real '
+                '%s on %d of %d runs; first: cond=%r extra_test=%r decisions=%r -> raised=%r, events %r' % (
+                    ['if_stmt', 'while_stmt', 'for_stmt'][k], len(bad), len(cases), cond, ext, ds, raised, log)), []
+    return None, []
+
+
 def variables_tie(run, rnd, quick, batch=0):
     """coq/Vars: the model of variables.py against the real pass (structural) and the core-language semantics
     against CPython; see props/c01_vars.py"""
@@ -651,7 +745,7 @@ def check(run):
         tie_msg = str(e)
         run.note(tie_msg)
     if tie_ok:
-        vlib.standard_proof_step(run, ['Lower/PassesCheck.vo', 'Lower/Compose.vo', 'Lower/Source.vo', 'Fn/FnProofs.vo', 'Fn/FnCheck.vo', 'Expr/ExprProofs.vo', 'Expr/ExprCheck.vo', 'Generated/C01_ops_gen.vo', 'Vars/VarProofs.vo', 'Vars/VarCheck.vo'])
+        vlib.standard_proof_step(run, ['Lower/PassesCheck.vo', 'Lower/Compose.vo', 'Lower/Source.vo', 'Fn/FnProofs.vo', 'Fn/FnCheck.vo', 'Expr/ExprProofs.vo', 'Expr/ExprCheck.vo', 'Generated/C01_ops_gen.vo', 'Vars/VarProofs.vo', 'Vars/VarCheck.vo', 'Ops/CtlOpsProofs.vo', 'Ops/CtlCheck.vo', 'Generated/C01_ctl_gen.vo'])
     rnd = random.Random(run.seed * 104729 + 1)
     lower_bad, lower_programs = None, []
     nprog = 120 if quick else 1500
@@ -704,7 +798,7 @@ def check(run):
         if tie_ok:
             # the thorough tier repeats the ties in batches of the quick size (one Coq file each)
             for batch in range(1 if quick else 6):
-                for tie in (lowering_tie, functionalise_tie, expression_tie, variables_tie):
+                for tie in (lowering_tie, functionalise_tie, expression_tie, variables_tie, control_ops_tie):
                     if not lower_bad:
                         lower_bad, lower_programs = tie(run, rnd, quick, batch)
         mod = convrun.load_module(allsrc, PRELUDE)
